@@ -4,6 +4,67 @@ correspondence suites (name, quick cases, thorough cases), fact obligations."""
 STD_TRUST = []
 
 PROPS = {
+    "C03": {
+        "theorems": ["C03_toplevel", "C03_toplevel_model", "C03_toplevel_model_any", "C03_resource_object",
+                     "C03_include_unique_pairs", "C03_keyFaithful_of_noSpace", "C03_include_unique_gen", "C03_include_unique"],
+        "suites": [("document", 700, 30000), ("marshal", 800, 30000)],
+        "level_text": "The model's MarshalDocument returns exactly the specified document tree (C04_document), whose top level is an object with jsonapi and links.self, never both data and errors, included only alongside data (C03_toplevel, also unconditionally on the model's output: C03_toplevel_model_any); every resource object has string type and id, links.self = prefix(/)type/id, and every relationship object has self and related links and, when present, data that is null, an identifier or an array of identifiers (C03_resource_object); and for every history of Include calls - repeated resources, primary-data resources, every collection kind - no (type, ID) pair appears twice across primary data and included (C03_include_unique_pairs; the key-string form C03_include_unique needs type names without spaces). Syntactic validity of the bytes is delegated to encoding/json and checked on every generated case by the harness's own JSON reader, which also re-checks every structural clause on the real output.",
+        "level_note": "Trusted: Lean kernel; standard axioms; mirrors of document.go / resource.go / link.go / collection.go validated by correspondence (impl tree = model tree = spec tree); encoding/json renders a tree as valid JSON with sorted map keys (delegated, checked per case). Domain: well-formed resources (every relationship holds a string / string list, field names unique and key = name); for the Include clause type names are JSON:API member names (no space).",
+        "assumptions": ["encoding/json output is syntactically valid JSON (checked on every generated case by an independent reader)"],
+    },
+    "C04": {
+        "theorems": ["C04_resource", "C04_attr_present_iff", "C04_attr_present_iff_keyed", "C04_attr_value", "C04_rel_present_iff",
+                     "C04_rel_present_iff_keyed", "C04_data_present_iff", "C04_data_exact", "C04_document", "C04_collection",
+                     "C04_no_entry", "C04_not_selected"],
+        "suites": [("marshal", 1500, 60000), ("document", 500, 20000)],
+        "level_text": "For every well-formed resource, every fields list (empty, unknown names, 'id', duplicates) and every relationship-data map, the model's MarshalResource returns exactly Spec.resourceObject - attributes = the type's attributes the selection lists, relationships = the selected ones, each with data iff requested, data = the related IDs with the target type (null for an empty to-one) - and leaves the resource unchanged except for the order of to-many IDs (C04_resource); the iff clauses are corollaries on the tree; MarshalDocument/MarshalCollection return the specified tree for primary data, collection members and included resources of different types, an absent selection entry exposing nothing (C04_document, C04_no_entry). Unbounded. Correspondence: impl tree = model tree = spec tree on random types over all 28 kinds, soft and wrapped, random selections.",
+        "level_note": "Trusted: Lean kernel; standard axioms; mirror of MarshalResource/MarshalCollection/MarshalDocument validated by correspondence; encoding/json's value encodings (decimal, RFC 3339, base64) are modelled (Model/Json.lean) and validated against the real ones on every case.",
+        "assumptions": [],
+    },
+    "C05": {
+        "theorems": ["C05_parse_range", "C05_toType_hasType", "C05_total", "C05_total_identifiers", "C05_accept_iff", "C05_conforms",
+                     "C05_type", "C05_collection", "C05_document", "C05_identifiers"],
+        "suites": [("bytes", 900, 40000)],
+        "level_text": "The theorems quantify over EVERY skeleton encoding/json can hand to the library (and decode failure), for every well-formed schema of soft and struct-backed types: no entry point panics (C05_total: resource, partial resource, collection, document, identifier(s)), an accepted resource's type is in the schema, every attribute holds a value of exactly the declared Go type (or nil for nullable), to-one a string, to-many a string list (C05_conforms, C05_document, C05_collection, C05_identifiers); result XOR error is by the Res type. Decoding bytes into the skeleton is delegated to encoding/json: the harness runs the real entry point on the bytes (valid payloads with any member replaced by a wrong JSON kind, unknown/missing types and fields, duplicate and case-variant keys, truncated, random, deeply nested) and the model on the skeleton the real decoder produced, and compares outcome and result. NewRequest's body part is checked on the real code (verdict only).",
+        "level_note": "Trusted: Lean kernel; standard axioms; encoding/json decoding into payloadSkeleton/resourceSkeleton/relationshipSkeleton (delegated; the skeleton types are the library's own, exported under the verif tag); mirror of UnmarshalDocument/Resource/PartialResource/Collection/Identifier(s) and Attr.unmarshalToType validated by correspondence; strconv.Atoi/ParseInt/ParseUint modelled. Schema domain: SSchema.WF (C14's invariant, field names not 'id', struct-backed types declarable).",
+        "assumptions": ["encoding/json decodes or rejects any byte string without panicking"],
+    },
+    "C06": {
+        "theorems": ["C06_int", "C06_int_sound", "C06_int_signed", "C06_uint_negzero", "C06_null", "C06_string", "C06_time", "C06_bytes",
+                     "C06_bool", "C06_mkVal_inj", "C06_rel_absent", "C06_rel_toOne", "C06_rel_toMany", "C06_stored"],
+        "suites": [("literals", 3000, 80000)],
+        "level_text": "For all ten integer kinds a literal is accepted iff it is an integer literal within the kind's range (and without a minus sign for unsigned kinds), and is stored unchanged (C06_int, against an independent reading Spec.intLit of the literal; exhaustive literal windows for the 8/16-bit kinds in the thorough correspondence tier); null is accepted exactly for nullable attributes and stored as nil (C06_null); strings, times and byte strings are stored exactly as the delegated decoders decode them, byte strings only from JSON strings (C06_string/time/bytes), booleans from true/false (C06_bool); a relationship holds exactly the listed IDs, repeats kept, and every linkage identifier carries the relationship's target type (C06_rel_toOne/toMany); every field absent from the payload reads its zero value and every present one the decoded value (C06_stored). The harness checks each accepted literal against an arbitrary-precision reading (math/big), RFC 3339 and base64 decoded independently.",
+        "level_note": "Trusted: Lean kernel; standard axioms; delegated decoders of encoding/json for string / time.Time / []byte / Identifier (the theorems hold for every result they can return; C06 says the library stores exactly that result); strconv modelled. Note: '-0' is rejected for unsigned kinds (strconv.ParseUint), consistent with 'accepted only if' (C06_uint_negzero).",
+        "assumptions": [],
+    },
+    "C11": {
+        "modules": ["C11", "C11M"],
+        "theorems": ["C11_perm_maps", "C11_perm_fields", "C11_perm_fields_perm", "C11_perm_relData_perm", "C11_perm_tomany_general",
+                     "C11_perm_tomany", "C11_perm_tomany_keyed", "C11_perm_included", "C11_perm_document_maps", "C11_deterministic",
+                     "C11_repeat_resource", "C11_repeat_document", "C11_repeat_document_full", "C11_repeat_idem", "C11_frame",
+                     "C11_frame_document", "C11_model_tree", "C11_model_perm_fields", "C11_model_perm_maps", "C11_model_perm_tomany",
+                     "C11_model_frame", "C11_model_document_included"],
+        "suites": [("marshal", 1200, 40000), ("document", 600, 20000)],
+        "level_text": "Go maps are association lists whose order is the iteration order the runtime picked; the output tree is proved invariant under EVERY permutation of the attribute, relationship, field-selection, relationship-data and links maps (C11_perm_maps, C11_perm_document_maps), of the names inside a selection or relationship-data list, duplicates included (C11_perm_fields), of the IDs of to-many relationships (C11_perm_tomany*), and of included resources with distinct IDs (C11_perm_included); marshaling the state a first marshal leaves behind gives the same tree (C11_repeat_*), and nothing but the order of to-many IDs and of the included list changes (C11_frame, C11_model_frame). The C11_model_* theorems carry this to the model of MarshalResource/MarshalDocument through C04. Bytes are a function of the tree (encoding/json with sorted keys, delegated). Correspondence: each case is marshaled repeatedly in one process (Go re-randomises map iteration on every range) and once per permuted variant; bytes must be identical; Get snapshots before/after.",
+        "level_note": "Trusted: Lean kernel; standard axioms; encoding/json renders equal trees to equal bytes; sort.Strings / sort.Slice modelled as (stable) insertion sorts - for included resources with equal IDs of different types Go's unstable sort may differ, the included-permutation theorem requires distinct IDs as the property does.",
+        "assumptions": ["encoding/json output is a function of the value tree"],
+    },
+    "C13": {
+        "theorems": ["C13_accept_iff", "C13_reject_iff", "C13_fields", "C13_values"],
+        "suites": [("bytes", 900, 40000)],
+        "level_text": "For every well-formed schema and every skeleton: partial unmarshaling accepts iff full unmarshaling accepts (C13_accept_iff, also for the error outcome); the partial resource has the schema type's name, the payload's ID, exactly the attributes that are members of the payload's attributes object and the relationships whose object carries a data member, each with the schema's definition, and reads for each the value full unmarshaling gives it (C13_fields, C13_values). Correspondence runs every generated payload through both real entry points and both models; the Go side checks the field sets and values against the decoded skeleton.",
+        "level_note": "Trusted: as C05 (delegated encoding/json decoding into the skeleton; mirrors validated by correspondence). Domain: skeleton maps have unique keys (they are Go maps).",
+        "assumptions": [],
+    },
+    "C18": {
+        "theorems": ["C18_facts", "C18_copy_same", "C18_contents_no_dangling", "C18_sep", "C18_independent", "C18_copy_independent",
+                     "C18_copy_independent_interleaved", "C18_new", "C18_new_independent", "C18_shared_is_detected"],
+        "facts": ["Facts.copyStores / Facts.copyValReturns / Facts.wrapperCopySets: what copyData, copyVal and Wrapper.Copy store for []byte, []string, *[]byte (regenerated; C18_facts is `decide` over them)"],
+        "suites": [("alias", 1000, 40000)],
+        "level_text": "Heap model: backing arrays of []byte/[]string values and the *Type of a resource are heap cells, values hold addresses. Whether a copy stores a fresh slice or the source's own is read from the regenerated facts (C18_facts). Proved, unbounded: a copy reads like its source (ID, type, keys, contents) and leaves the source unchanged (C18_copy_same); the copy reaches no cell of the source (C18_sep); separation and validity are invariant under every history of operations on one side - Set, in-place writes through slices obtained by Get (also through *[]byte), in-place sorting by marshaling/filtering, AddAttr/RemoveField on its type - so nothing read from the other side changes, in both directions and interleaved (C18_independent, C18_copy_independent*); New returns a zero-valued resource with its own type cell sharing nothing (C18_new*); and with a shared store mode the violation is exhibited (C18_shared_is_detected). Correspondence performs the same copy-then-mutate histories on real SoftResources and wrapped structs and on the heap model, reading every resource after every step.",
+        "level_note": "Trusted: Lean kernel; standard axioms; the extractor's reading of copyData/copyVal/Wrapper.Copy; mirror validated by correspondence. Pointers to scalars (*string, *int, ...) are shared by copies in the Go code and are values in the model: the property speaks of slices. Storing in one resource a slice obtained from the other is aliasing introduced by the caller and is outside the operations of HOp.",
+        "assumptions": ["Go slices alias exactly when they share a backing array (cell)"],
+    },
     "C09": {
         "theorems": ["C09_mergeSorter_local", "C09_less_spec", "C09_less_no_panic", "C09_less_strict_weak", "C09_range",
                      "C09_range_filtered", "C09_unique_with_id", "C09_unique_with_id_range", "C09_range_eq_spec",
